@@ -8,7 +8,7 @@ pid = sys.argv[1]
 name = sys.argv[2] if len(sys.argv) > 2 else pid + "b"
 p = [json.loads(l) for l in open(os.path.join(VERIF, "properties.jsonl")) if json.loads(l)["id"] == pid][0]
 wt = "/tmp/wt/%s" % name
-print("""You are working in a scratch git worktree of the cea-sec/miasm repository at %(wt)s (interpreter with all dependencies: /venv/bin/python; the existing test suite is run with `cd %(wt)s && /venv/bin/python -m pytest -q -p no:cacheprovider test/arch/mep` and its 280 tests must pass). Work ONLY inside %(wt)s; do not read or touch /repo, /verif or any other directory. There is no network. Note: a script run from %(wt)s/seed imports the installed miasm from another directory by default; demo.py must put the worktree root first on sys.path and assert miasm was loaded from the worktree. Do not change C sources.
+print("""You are working in a scratch git worktree of the cea-sec/miasm repository at %(wt)s (interpreter with all dependencies: /venv/bin/python; the existing test suite is run with `cd %(wt)s && /venv/bin/python -m pytest -q -p no:cacheprovider test/arch/mep` and its 280 tests must pass). Work ONLY inside %(wt)s; do not read or touch /repo, /verif or any other directory. There is no network. Note: a script run from %(wt)s/seed imports the installed miasm from another directory by default; demo.py must put the worktree root first on sys.path and assert miasm was loaded from the worktree. %(csrc)s
 
 Task: produce ONE realistic BEHAVIOUR-PRESERVING source change (the kind of clean-up a maintainer commits: rename local variables, introduce or inline a temporary, reorder independent statements, replace an idiom by an equivalent one (%%-formatting by str.format, `if/else` by a conditional expression, a loop by a comprehension, `a <= b` by `b >= a`, a helper extracted or inlined), restructure an if/elif chain without changing what it computes, add comments / logging) inside the code that implements the property below - in the very functions that make the property true, not in unrelated code. The property must STILL HOLD after your change, for every input: be careful and conservative, and double-check equivalence on edge cases. Change 5 to 30 lines, in one or two functions.%(hint)s
 
@@ -20,4 +20,7 @@ Code it concerns: %(files)s
 Deliver in %(wt)s/seed/ : (1) patch.diff = output of `git diff -- miasm` for your change (only files under miasm/); (2) demo.py = a small standalone script, run as `cd %(wt)s && /venv/bin/python seed/demo.py`, that exercises the changed functions on a good range of inputs including edge cases, compares against independently computed expected results, and exits 0 both on the unpatched tree and with the patch applied; (3) notes.md = what the change is and why it is behaviour-preserving. Verify yourself: demo exits 0 without the patch (toggle the patch with `git apply -R seed/patch.diff` / `git apply seed/patch.diff`; NEVER use `git stash`: the stash is shared with other worktrees of this repository that other people are using right now) and with it; the 280 tests pass with the patch applied. Leave the patch APPLIED in the worktree when you finish. Final answer: the paths and a 5-line summary of the change.""" % {
     "wt": wt, "id": pid, "title": p["title"], "statement": p["statement"], "q": p["quantifier"]["text"],
     "files": ", ".join(p["anchors"]["files"]),
+    "csrc": ("Make your change in the C sources listed below (not in Python): C extension modules (*.so) in the worktree are pre-built "
+             "copies; rebuild only the module you change with gcc into the worktree (python3-config --includes; look at setup.py for the "
+             "source list of each extension) and say how in notes.md." if os.environ.get("BENIGN_C") == "1" else "Do not change C sources."),
     "hint": (" " + os.environ["BENIGN_HINT"]) if os.environ.get("BENIGN_HINT") else ""})
